@@ -62,13 +62,16 @@ ZSTD_compressSubBlock_literal(const HUF_CElt* hufTable,
       return ZSTD_noCompressLiterals(dst, dstSize, literals, litSize);
     } else if (hufMetadata->hType == set_rle) {
       DEBUGLOG(5, "ZSTD_compressSubBlock_literal using rle literal");
+      RETURN_ERROR_IF(dstSize < 4, dstSize_tooSmall, "not enough space for rle literals");
       return ZSTD_compressRleLiteralsBlock(dst, dstSize, literals, litSize);
     }
 
     assert(litSize > 0);
     assert(hufMetadata->hType == set_compressed || hufMetadata->hType == set_repeat);
+    RETURN_ERROR_IF(dstSize < lhSize, dstSize_tooSmall, "not enough space for literals header");
 
     if (writeEntropy && hufMetadata->hType == set_compressed) {
+        RETURN_ERROR_IF((size_t)(oend-op) < hufMetadata->hufDesSize, dstSize_tooSmall, "not enough space for huffman table");
         ZSTD_memcpy(op, hufMetadata->hufDesBuffer, hufMetadata->hufDesSize);
         op += hufMetadata->hufDesSize;
         cLitSize += hufMetadata->hufDesSize;
@@ -201,6 +204,7 @@ ZSTD_compressSubBlock_sequences(const ZSTD_fseCTables_t* fseTables,
         const U32 MLtype = fseMetadata->mlType;
         DEBUGLOG(5, "ZSTD_compressSubBlock_sequences (fseTablesSize=%zu)", fseMetadata->fseTablesSize);
         *seqHead = (BYTE)((LLtype<<6) + (Offtype<<4) + (MLtype<<2));
+        RETURN_ERROR_IF((size_t)(oend-op) < fseMetadata->fseTablesSize, dstSize_tooSmall, "not enough space for fse tables");
         ZSTD_memcpy(op, fseMetadata->fseTablesBuffer, fseMetadata->fseTablesSize);
         op += fseMetadata->fseTablesSize;
     } else {
@@ -277,6 +281,7 @@ static size_t ZSTD_compressSubBlock(const ZSTD_entropyCTables_t* entropy,
     BYTE* op = ostart + ZSTD_blockHeaderSize;
     DEBUGLOG(5, "ZSTD_compressSubBlock (litSize=%zu, nbSeq=%zu, writeLitEntropy=%d, writeSeqEntropy=%d, lastBlock=%d)",
                 litSize, nbSeq, writeLitEntropy, writeSeqEntropy, lastBlock);
+    RETURN_ERROR_IF(dstCapacity < ZSTD_blockHeaderSize, dstSize_tooSmall, "not enough space for block header");
     {   size_t cLitSize = ZSTD_compressSubBlock_literal((const HUF_CElt*)entropy->huf.CTable,
                                                         &entropyMetadata->hufMetadata, literals, litSize,
                                                         op, (size_t)(oend-op),
